@@ -54,6 +54,7 @@ type IVal struct {
 	Lo, Hi int64 // ivSlice: window into the backing array
 	M      map[string]IVal
 	MZero  *IVal // ivMap: the zero value of the element type
+	F      *ssa.Function // a function value (K == ivOpaque, NonNil): the function it denotes
 }
 
 // mapKey renders a key value for constant-map lookups ("" when the key is not evident).
@@ -338,6 +339,10 @@ func (it *Interp) staticValue(v ssa.Value, cell *ICell, in *ssa.Function, depth 
 		it.staticValue(inner, cell, in, depth+1)
 	case *ssa.MakeInterface:
 		it.staticValue(x.X, cell, in, depth+1)
+	case *ssa.Function:
+		if !cell.aggregate() {
+			cell.V = IVal{K: ivOpaque, S: "func " + x.Name(), NonNil: true, F: x}
+		}
 	case *ssa.Call:
 		// a value computed once by a function of the analysed packages that takes nothing (var t = func() (a [256]bool)
 		// { … }()): evaluated
@@ -466,7 +471,7 @@ func (it *Interp) run(fn *ssa.Function, args []IVal, depth int) ([]IVal, error) 
 		case *ssa.Global:
 			return IPtr(it.globalCell(x))
 		case *ssa.Function:
-			return IVal{K: ivOpaque, S: "func " + x.Name(), NonNil: true}
+			return IVal{K: ivOpaque, S: "func " + x.Name(), NonNil: true, F: x}
 		}
 		return IVal{K: ivOpaque, S: v.Name()}
 	}
@@ -908,7 +913,18 @@ func (it *Interp) call(x *ssa.Call, get func(ssa.Value) IVal, depth int) (IVal, 
 		}
 	}
 	callee := x.Call.StaticCallee()
-	if callee != nil && len(callee.Blocks) > 0 && curProgRoot(callee) {
+	dynName := ""
+	if callee == nil && !x.Call.IsInvoke() {
+		// a call through a function value that is evident (an entry of a constant table of functions)
+		if fv := get(x.Call.Value); fv.F != nil {
+			if len(fv.F.Blocks) > 0 && (curProgRoot(fv.F) || fv.F.Parent() != nil && len(fv.F.FreeVars) == 0) {
+				callee = fv.F
+			} else {
+				dynName = fv.F.String()
+			}
+		}
+	}
+	if callee != nil && len(callee.Blocks) > 0 && (curProgRoot(callee) || callee.Parent() != nil && len(callee.FreeVars) == 0) {
 		res, err := it.run(callee, args, depth+1)
 		if err != nil {
 			return IVal{}, err
@@ -921,7 +937,7 @@ func (it *Interp) call(x *ssa.Call, get func(ssa.Value) IVal, depth int) (IVal, 
 		}
 		return IVal{K: ivTuple, T: res}, nil
 	}
-	name := ""
+	name := dynName
 	if f := CalleeFunc(x); f != nil {
 		name = f.FullName()
 	}
